@@ -18,3 +18,12 @@ NATIVE['n_c18_compress'] = dict(
     functions=[('crates/cairo-lang-starknet-classes/src/felt252_vec_compression.rs', None, 'compress'),
                ('crates/cairo-lang-starknet-classes/src/felt252_vec_compression.rs', None, 'decompress')],
 )
+NATIVE['n_c18_debug_info'] = dict(
+    crate='cairo-lang-starknet-classes',
+    host='crates/cairo-lang-starknet-classes/src/contract_class.rs',
+    harness='native/cairo-lang-starknet-classes/n_c18_debug_info.rs',
+    props={'C18'},
+    bound='every Sierra program recorded in the e2e test files (382) and a spread of the test-data programs (all in thorough): publish with debug names, read back, print, parse',
+    functions=[('crates/cairo-lang-sierra/src/debug_info.rs', 'impl DebugInfo', 'populate'),
+               ('crates/cairo-lang-sierra/src/debug_info.rs', 'impl DebugInfo', 'extract')],
+)
